@@ -104,6 +104,12 @@ var handSeeds = []string{
 	"return 1\n",
 	"fn := func() { return }; fn()\n",
 	"\uFEFFa := 1\n",
+	// an error at the first byte of a source, reported after other source modules were loaded
+	"len = import(\"m1\")\n",
+	"copy += [import(\"m1\"), import(\"m2\")]",
+	"import(\"big\")",
+	"a1 := import(\"m1\")\na3 := import(\"m3\")\nnosuch",
+	"break\na1 := import(\"m1\")\n",
 }
 
 // split cuts src into mutation units: identifiers/numbers, string and char literals, white-space runs and
@@ -383,7 +389,7 @@ func mutateOnce(r *lib.RNG, src, other []byte) ([]byte, string) {
 		if len(ts) > 0 {
 			i := pick()
 			t2 := append([][]byte{}, ts...)
-			t2[i] = []byte([]string{"len", "import", "9223372036854775808", "255", "256", "65536", "0", "\"\"", "''", "'ab'", "1e400", "0x", "import(\"modx\")", "import(\"nosuch\")", "import(\"helper\")", "import(\"os\")"}[r.Intn(16)])
+			t2[i] = []byte([]string{"len", "import", "9223372036854775808", "255", "256", "65536", "0", "\"\"", "''", "'ab'", "1e400", "0x", "import(\"modx\")", "import(\"nosuch\")", "import(\"helper\")", "import(\"os\")", "import(\"m1\")", "import(\"m2\")", "import(\"m3\")", "import(\"big\")"}[r.Intn(20)])
 			return join(t2), "boundary-word"
 		}
 	}
@@ -433,6 +439,38 @@ func mutateOnce(r *lib.RNG, src, other []byte) ([]byte, string) {
 	i := r.Intn(len(src) + 1)
 	out := append(cp(src[:i]), byte(r.Intn(256)))
 	return append(out, src[i:]...), "byte-insert"
+}
+
+// withImports places imports of the configured source modules (Config.Src = n) in front of and/or behind the
+// mutated text, or makes the text's first statement itself start with an erroneous token that contains one.
+func withImports(r *lib.RNG, src []byte, n int) ([]byte, string) {
+	pre, post := "", ""
+	k := 1 + r.Intn(n)
+	switch r.Intn(5) {
+	case 0:
+		pre = importLines("ia", k)
+	case 1:
+		post = "\n" + importLines("ib", k)
+	case 2:
+		pre, post = importLines("ia", k), "\n"+importLines("ib", 1+r.Intn(n))
+	case 3: // the first token of the text becomes the target of an assignment whose value loads modules
+		heads := []string{"len", "copy", "nosuch", "ia1", "len.x", "len[0]"}
+		ops := []string{"=", "+=", ":=", "="}
+		pre = fmt.Sprintf("%s %s import(\"m%d\")\n", heads[r.Intn(len(heads))], ops[r.Intn(len(ops))], k)
+		if r.Bool() {
+			pre = "import(\"big\")\n"
+		}
+	default: // no line break: the imports share the first / last line with the text
+		pre = strings.ReplaceAll(importLines("ia", k), "\n", ";")
+		if r.Bool() {
+			pre, post = "", ";"+strings.TrimSuffix(strings.ReplaceAll(importLines("ib", k), "\n", ";"), ";")
+		}
+	}
+	out := append(append([]byte(pre), src...), []byte(post)...)
+	if len(out) > 4096 {
+		out = out[:4096]
+	}
+	return out, "imports-around"
 }
 
 // deepInputs builds nesting monsters (run in a child process).
